@@ -38,6 +38,8 @@ CHECKS = {
          "for every enumerated system every k-step prefix of CG is compared per column with the independently computed A-norm optimum over x0 + K_k(PA, P r0); the cap on products, the stopping inequality at the stop and one step earlier, exact zeros for zero right-hand sides, linearity in b and the bookkeeping are checked on the same runs"),
  "C14": ("(Hermitian operator family incl. repeated / clustered spectra and aliasing-prone kinds, size, start vector incl. eigenvectors and a batch, tol, entry point) x EVERY iteration cap: each capped run is a checked state",
          "for every enumerated run the returned Q and T are checked for the column bound, orthonormality, the first column, a real symmetric tridiagonal T with non-negative off-diagonal equal to Q^H A Q, the three-term relation, the Krylov span, early termination with exact Ritz values at an exhausted space, and ascending Ritz pairs from lanczos_eigs"),
+ "C15": ("(square operator family, size, start vector incl. invariant subspaces of dimension 1-3 and a batch, tol, entry point) x EVERY iteration cap below, at and above n: each capped run is a checked state",
+         "for every enumerated run the shapes, first column, Hessenberg form with non-negative sub-diagonal, orthonormality of the required leading columns, the Arnoldi relation, zero weight beyond the Krylov dimension, exact zero padding and equality with the m = n result for m > n are checked; arnoldi_eigs must return the spectrum at m >= n and nothing spurious after a breakdown"),
 }
 PENDING = {}
 props = [json.loads(l) for l in open(os.path.join(ROOT, "properties.jsonl"))]
